@@ -30,7 +30,8 @@ Definition finish (r : res (option (slots * state * nat))) (o_sl : slots) (o_st 
   match r with
   | RDone (Some (sl, st, c)) rest =>
       of_bool (match rest with [] => true | _ => false end
-               && slots_eqb sl o_sl && bools_eqb st o_st && Nat.eqb c o_cutoff)
+               && slots_eqb sl o_sl && bools_eqb st o_st && Nat.eqb c o_cutoff
+               && valid_decomp o_st o_sl)
   | RDone None _ => VFail
   | RIndet => VIndet
   | RBad _ => VFail
